@@ -130,7 +130,7 @@ namespace foonathan
                 auto& pool = pools_.get(node_size);
                 if (pool.empty())
                 {
-                    auto block = reserve_memory(pool, def_capacity());
+                    auto block = reserve_memory(pool, def_capacity(pool));
                     pool.insert(block.memory, block.size);
                 }
 
@@ -151,7 +151,7 @@ namespace foonathan
                 auto& pool = pools_.get(node_size);
                 if (pool.empty())
                 {
-                    try_reserve_memory(pool, def_capacity());
+                    try_reserve_memory(pool, def_capacity(pool));
                     return pool.empty() ? nullptr : pool.allocate();
                 }
                 else
@@ -180,7 +180,7 @@ namespace foonathan
                 if (!mem)
                 {
                     // reserve more memory
-                    auto block = reserve_memory(pool, def_capacity());
+                    auto block = reserve_memory(pool, def_capacity(pool));
                     pool.insert(block.memory, block.size);
 
                     mem = pool.allocate(count * node_size);
@@ -218,7 +218,7 @@ namespace foonathan
                 auto& pool = pools_.get(node_size);
                 if (pool.empty())
                 {
-                    try_reserve_memory(pool, def_capacity());
+                    try_reserve_memory(pool, def_capacity(pool));
                     return pool.empty() ? nullptr : pool.allocate(count * node_size);
                 }
                 else
@@ -329,6 +329,16 @@ namespace foonathan
             std::size_t def_capacity() const noexcept
             {
                 return arena_.current_block().size / pools_.size();
+            }
+
+            // the default capacity, made big enough for at least one node of the given pool,
+            // a free list cannot insert less (a small node pool needs room for its chunk header as well)
+            std::size_t def_capacity(const typename pool_type::type& pool) const noexcept
+            {
+                auto capacity = def_capacity();
+                while (pool.usable_size(capacity) < pool.node_size())
+                    capacity += pool.node_size() - pool.usable_size(capacity);
+                return capacity;
             }
 
             detail::fixed_memory_stack allocate_block()
